@@ -7,17 +7,54 @@ def repo_commits():
     out = subprocess.run(["git", "-C", "/repo", "log", "--format=%h %s"], stdout=subprocess.PIPE).stdout.decode()
     return [l.split()[0] for l in out.splitlines() if l.split(" ", 1)[1].startswith("verif hooks")]
 
+RT = "Trusted: Lean kernel; hand-written model tied to the code by lock-step correspondence (R: per-Read results, bytes consumed from the bufio.Reader, decoder inputs, with the real decoder's answers replayed from the hook VerifRecordSteps) and by the direct oracle; the decoder proper (header parser, table builders, Go and AVX2 decode loops) is a parameter with contract Decoder.Sane, validated per run; bufio.Reader modelled after the Go 1.23 source."
+WT = "Trusted: Lean kernel; hand-written control model tied to the code by lock-step correspondence (W: per-op results, idx/end/processed/token counters, destination calls, with the real match finder / block encoder answers replayed from the hook VerifRecord) and by the direct oracle; leaf algorithms (Go and assembly match finders, Huffman code generation, header, bit packing) are parameters."
+CT = "Trusted: Lean kernel; container definitions tied to the code by the K correspondence (header and trailer bytes emitted by fastgo's Writers, verdicts and fields of its Readers on valid / mutated / truncated headers incl. FHCRC, checksums against hash/crc32 and hash/adler32); Latin-1/UTF-8 conversion and time handling are glue validated by the oracle only; the inflater is a parameter (Exact / arbitrary answers)."
+
 CLAIMED = {
  # id: (technique, level text, level note, design ref)
- "C12": ("Lean 4 theorem over the Writer control model (reset = initial state, for every state) + lock-step correspondence with replayed leaves + fresh-vs-reset byte oracle",
-         "Proof: C12_reset_state / C12_reset_fresh / C12_history are kernel-checked for EVERY model state and every later history; the model's Reset is written field by field after the code and is tied to it on every run by the W correspondence (counters, results and destination calls in lock-step, including histories with Reset after pending data, Flush, Close and failed writes) and by the direct fresh-vs-reset byte comparison at every acceleration level.",
-         "Trusted: Lean kernel; leaf contract mfReset = mfInit (hash table + histogram zeroed) is a hypothesis validated by the byte oracle; gzip/zlib wrappers are covered by the oracle only; buffer bytes beyond `end` and scratch buffers are dead scratch by inspection.", "DESIGN.md section 6 C12"),
+ "C04": ("Lean 4 invariant over the Reader control model for every bufio size / source chunking / read sizes (decoder fed the stream in order, nothing lost or duplicated) + lock-step correspondence + schedule-pair oracle",
+         "Proof (partial by nature of the claim): C04_decoder_sees_the_stream, C04_same_stream_same_feed, C04_nothing_left_behind are kernel-checked by induction over Read calls for an arbitrary Sane decoder; that the decoder's output is a function of the fed stream is its contract, validated by the oracle (all-at-once vs scheduled runs over valid and cut streams, boundary families, one byte per read). For TRUNCATED streams the code violates the property by 1-2 trailing bytes: known finding F-C04-1.",
+         RT, "DESIGN.md section 6 C04"),
+ "C05": ("Lean 4 accounting invariant of the Reader control model (discarded + whole bytes in the bit buffer = bytes taken by the decoder) => exact consumption at io.EOF + lock-step correspondence + suffix-intact oracle",
+         "Proof: C05_invariant (every reachable state), C05_exact, C05_position_after_eof (taken = ceil(endBit/8), the unread stream is exactly the suffix) are kernel-checked for every bufio size, chunking and read pattern; tie: R correspondence compares the bytes consumed from the bufio.Reader in lock-step; oracle: stream+suffix over bufio sizes 16..64K, NewReader and Reset, flate/gzip/zlib. Non-bufio ByteReaders are over-read by the library: known finding F-C05-1.",
+         RT, "DESIGN.md section 6 C05"),
+ "C06": ("Lean 4 round-trip theorems for the gzip and zlib header/trailer formats (parse (emit h) = h for every representable header; trailer = checksum of the concatenated writes) + byte-level correspondence + both-direction interop oracle",
+         "Proof: C06_gzip_header_roundtrip (all optional fields, every level), C06_gzip_trailer, C06_zlib_header_roundtrip / _fcheck (FLEVEL, FDICT, DICTID, FCHECK), C06_zlib_trailer, C06_gzip_member_reads_back are kernel-checked for all headers/payloads/partitions; tie: K correspondence on the bytes fastgo emits and accepts; oracle: fastgo->stdlib and stdlib->fastgo round trips (fields, payload, trailer recomputed) over levels, partitions, Reset reuse, dictionaries.",
+         CT, "DESIGN.md section 6 C06"),
+ "C07": ("Lean 4 theorem over the gzip/zlib Read loops with the inflater as an arbitrary environment: io.EOF implies checksum (and length) of the delivered bytes equal the trailer; Read counts are payload counts + truncation/bit-flip oracle",
+         "Proof: C07_gzip_eof_is_checked, C07_zlib_eof_is_checked (for every sequence of inflater answers, every Read size), C07_gzip_counts / C07_zlib_counts, C07_gzip_truncated_trailer; tie: K correspondence and the oracle cutting containers at every byte and flipping bits in header / payload / trailer (default and Multistream(false), FHCRC members, tiny Read buffers).",
+         CT, "DESIGN.md section 6 C07"),
+ "C08": ("Lean 4 induction over the member list (default multistream loop and Multistream(false)+Reset rounds) using the header round-trip and an exact inflater + member-sequence oracle",
+         "Proof: C08_multistream and C08_member_by_member are kernel-checked for every list of members (any representable headers, payloads incl. empty) and any trailing data, under the inflater contract Exact (decodes the body, leaves the source exactly after it = C02+C05); oracle: 1..k members from both encoders, empty members, trailing garbage, bufio sizes 16..1M.",
+         CT, "DESIGN.md section 6 C08"),
+ "C09": ("Lean 4 theorem Write(a++b) = Write a; Write b over the chunked Accumulate/Compress loop for arbitrary leaves, lifted to any two partitions + lock-step correspondence + partition-pair oracle with buffer-edge cuts",
+         "Proof: C09_write_append, C09_partition, C09_later_ops are kernel-checked by strong induction over the data for every leaf algorithm, every buffer state (incl. pending slide) and window > 0; tie: W correspondence; oracle: pairs of partitions with identical Flush positions, cuts aligned to the buffer fill/slide edges, zero-length writes, all accelerated settings and levels.",
+         WT, "DESIGN.md section 6 C09"),
+ "C11": ("Lean 4 theorem over the Reader control model with a source that blocks when its schedule is exhausted: Read blocks only when starved (no pending output, input slice consumed, stream not ended, every delivered byte handed to the decoder) + lock-step correspondence incl. blocking sources + gated-source oracle",
+         "Proof: C11_blocks_only_when_starved, C11_no_source_access_after_end, C11_error_after_data are kernel-checked for an arbitrary Sane decoder and every schedule; tie: R correspondence includes sources that fall silent or fail; oracle: gated source releasing exactly the bytes up to a sync-flush point or the stream end, then blocking / failing / delivering garbage (flate, gzip in both modes, zlib).",
+         RT, "DESIGN.md section 6 C11"),
+ "C12": ("Lean 4 theorem over the Writer control model (reset = initial state, for every state) + regenerated Reset-field facts + lock-step correspondence + fresh-vs-reset byte oracle",
+         "Proof: C12_reset_state / C12_reset_fresh / C12_history are kernel-checked for EVERY model state and every later history; C12_reset_fields_complete re-checks, against facts regenerated from /repo on every run, that the code's Reset methods assign every field the model resets; tie: W correspondence (histories with Reset after pending data, Flush, Close, failed writes) and the direct fresh-vs-reset byte comparison (double Reset, old-destination leak check) at every acceleration level.",
+         WT + " Leaf contract mfReset = mfInit (hash table + histogram zeroed) is a hypothesis validated by the byte oracle; gzip/zlib wrappers are covered by the oracle and the field facts.", "DESIGN.md section 6 C12"),
+ "C13": ("Lean 4 theorem reset = NewReader state for every Reader state + regenerated Reset-field facts + reset-vs-fresh oracle",
+         "Proof: C13_reset_state, C13_reset_fresh (every state, every later Read sequence), C13_reset_fields_complete (regenerated: decompressor.Reset and inflate.reset assign every stream-state field); oracle: histories (nothing read, pending output, complete, error, truncated, cut inside a header) then valid / hostile / dictionary next inputs delivered whole or in small pieces, flate/gzip/zlib. Truncated next inputs inherit known finding F-C04-1.",
+         RT, "DESIGN.md section 6 C13"),
  "C14": ("Lean 4 theorems over the Writer control model for an arbitrary destination failure pattern (reported / recorded / sticky) + lock-step correspondence under injected faults + fault at every destination call",
-         "Proof: for every failure pattern of the destination (any call index, one-shot or persistent) C14_reported, C14_failure_recorded and C14_sticky are kernel-checked by induction over the operation list; tie: W correspondence with injected destination faults (results, counters, number of destination calls) plus the direct oracle failing the destination at every call index of generated op sequences for flate/gzip/zlib at each level.",
-         "Trusted: Lean kernel; control model hand-written (tied by correspondence); memory safety of the unsafe 8-byte stores is observed (recovered panics / crashes of the harness process), not proved; gzip/zlib sticky errors covered by the oracle only.", "DESIGN.md section 6 C14"),
+         "Proof: for every failure pattern of the destination (any call index, one-shot or persistent) C14_reported, C14_failure_recorded and C14_sticky are kernel-checked by induction over the operation list; tie: W correspondence with injected destination faults (results, counters, number of destination calls) plus the direct oracle failing the destination at every call index (persistent and one-shot) of generated op sequences for flate/gzip/zlib at each level.",
+         WT + " Memory safety of the unsafe 8-byte stores is observed (recovered panics / crashes of the harness process), not proved.", "DESIGN.md section 6 C14"),
+ "C15": ("Lean 4 theorems over the Reader control model + bufio model: only Peek can surface a source error, it surfaces the source's own value, only after all earlier bytes were decoded, and it sticks + lock-step correspondence with failing sources + fault-at-every-byte oracle",
+         "Proof: C15_error_is_the_sources, C15_decoder_errors_are_not_source_errors, C15_peek_reports_source_errors_only, C15_sticky are kernel-checked for every schedule and decoder; oracle: source failing after k bytes for k across the stream, alone or with data, three error values (one wrapping io.EOF), flate/gzip/zlib.",
+         RT, "DESIGN.md section 6 C15"),
  "C16": ("Lean 4 refinement of the Writer control model to the 3-state protocol automaton of compress/flate + exhaustive short call sequences side by side with the standard library",
-         "Proof: C16_protocol_step (every call's error and next protocol state are the automaton's), C16_after_close (closed Writer: Close nil, Write/Flush fail, nothing emitted, state unchanged), C16_total; tie: W correspondence, and the oracle running ALL sequences over {W-empty,W-small,W-large,Flush,Close,Reset} up to length 4 (thorough 5) per setting plus random longer ones against compress/{flate,gzip,zlib}, plus constructor level acceptance -4..11.",
-         "Trusted: Lean kernel; that the standard library follows the same automaton is validated, not proved; panics are observed by the harness (the model has no partial operation).", "DESIGN.md section 6 C16"),
+         "Proof: C16_protocol_step (every call's error and next protocol state are the automaton's), C16_after_close (closed Writer: Close nil, Write/Flush fail, nothing emitted, state unchanged), C16_close_closes, C16_total; tie: W correspondence, and the oracle running ALL sequences over {W-empty,W-small,W-large,Flush,Close,Reset} up to length 4 (thorough 5) per setting plus random longer ones against compress/{flate,gzip,zlib}, plus constructor level acceptance -4..11.",
+         WT + " That the standard library follows the same automaton is validated, not proved; panics are observed by the harness.", "DESIGN.md section 6 C16"),
+ "C17": ("Lean 4: product-machine non-interference theorem + fact theorem over the REGENERATED list of package-level variables and their write sites (none outside init; no stores to globals in assembly) + concurrent-vs-solo oracle, also under the race detector",
+         "Proof (partial by nature): C17_product_noninterference (any two state machines, any interleaving) and C17_no_shared_mutable_state (decide over facts regenerated from /repo on every run: a new mutable global, a sync.Pool, a write to a table outside init breaks it); the Go memory model and the assembly are not modelled: data-race freedom is corroborated by running the same workloads concurrently (GOMAXPROCS 1..16, skewed writers, pooled-reader recycling) and in a -race build.",
+         "Trusted: Lean kernel; the fact extractor (/verif/extract, go/ast); the race detector and scheduler for the corroborating runs.", "DESIGN.md section 6 C17"),
+ "C18": ("Lean 4: level-free models + fact theorems over regenerated dispatch sites and struct layouts vs assembly displacements + per-level processes compared pairwise and with the reference inflater",
+         "Proof: the Reader and container models take no level parameter and the Writer theorems hold for all leaves; C18_dispatch_shape and C18_layout_ok are decided over facts regenerated from /repo (every cpu.ArchLevel site, gc/amd64 offsets of inflate / BitBuf / histogram against the displacements in the .s files); the per-level leaf contracts are assumptions validated on every run: each Reader case runs in separate processes at every level the host can execute, outcomes compared pairwise and with the reference inflater; R and W correspondences run at level 0.",
+         "Trusted: Lean kernel; extractor; assembly behind per-level validated contracts; levels above the host's capability are skipped and reported.", "DESIGN.md section 6 C18"),
 }
 
 def main():
